@@ -20,6 +20,8 @@ type tsState struct {
 	hs     int64
 	nonce  int64 // 0 or 16 (post-handshake class)
 	cache  [4]bool
+	cin    bool // cipherIn set
+	cout   bool // cipherOut set
 }
 
 func (s tsState) String() string {
@@ -33,7 +35,13 @@ func (s tsState) String() string {
 			c += fmt.Sprint(i)
 		}
 	}
-	return fmt.Sprintf("%s/hs%d/n%d/cache{%s}", role, s.hs, s.nonce, c)
+	k := ""
+	if s.cin != s.cout {
+		k = fmt.Sprintf("/cin=%v,cout=%v", s.cin, s.cout)
+	} else if !s.cin {
+		k = "/nokeys"
+	}
+	return fmt.Sprintf("%s/hs%d/n%d/cache{%s}%s", role, s.hs, s.nonce, c, k)
 }
 
 func (s tsState) abs() core.AState {
@@ -45,6 +53,13 @@ func (s tsState) abs() core.AState {
 	for i, b := range s.cache {
 		a[fmt.Sprintf("msgCache[%d]", i)] = core.AVal{K: core.ABool, B: b}
 	}
+	nilOr := func(set bool) core.AVal {
+		if set {
+			return core.AVal{K: core.ANonNil}
+		}
+		return core.AVal{K: core.ANil}
+	}
+	a["cipherIn"], a["cipherOut"] = nilOr(s.cin), nilOr(s.cout)
 	return a
 }
 
@@ -73,6 +88,8 @@ func tsFromAbs(a core.AState) (tsState, error) {
 		}
 		s.cache[i] = v.B
 	}
+	s.cin = get("cipherIn").K == core.ANonNil
+	s.cout = get("cipherOut").K == core.ANonNil
 	return s, nil
 }
 
@@ -119,19 +136,20 @@ func buildTypestate(r *core.Report) *typestate {
 	if len(r.Failures) > 0 {
 		return nil
 	}
-	tracked := map[string]bool{"isInit": true, "hsIndex": true, "nonce": true}
+	tracked := map[string]bool{"isInit": true, "hsIndex": true, "nonce": true, "cipherIn": true, "cipherOut": true}
 	for i := 0; i < 4; i++ {
 		tracked[fmt.Sprintf("msgCache[%d]", i)] = true
 	}
 	ts.it = &core.Interp{
 		P: p, RecvType: sess, Tracked: tracked,
-		Fallible: map[string]bool{"readInitHello": true, "readRespHello": true, "readInitDone": true, "readRespDone": true, "Decrypt": true, "ParseMessage": true},
-		BoolFork: map[string]bool{"ValidateCounter": true, "After": true},
-		IntCap:   map[string]int64{"nonce": 16},
-		Notable:  map[string]bool{"Encrypt": true, "Decrypt": true, "ValidateCounter": true},
+		Fallible:   map[string]bool{"readInitHello": true, "readRespHello": true, "readInitDone": true, "readRespDone": true, "Decrypt": true, "ParseMessage": true},
+		BoolFork:   map[string]bool{"ValidateCounter": true, "After": true},
+		IntCap:     map[string]int64{"nonce": 16},
+		NilTracked: map[string]bool{"cipherIn": true, "cipherOut": true},
+		Notable:    map[string]bool{"Encrypt": true, "Decrypt": true, "ValidateCounter": true},
 	}
 	// writers of the tracked fields: only Session methods (and NewSession) may store them
-	for _, fld := range []string{"isInit", "hsIndex", "nonce", "msgCache"} {
+	for _, fld := range []string{"isInit", "hsIndex", "nonce", "msgCache", "cipherIn", "cipherOut"} {
 		fv := needField(r, "p/p2pke", "Session", fld)
 		if fv == nil {
 			return nil
